@@ -266,16 +266,19 @@ def normalize_url(
         try:
             # NOTE: the platform parsers must see one spelling of the url
             # (e.g. "/%77atch" vs. "/watch", "/./watch")
-            url = canonicalize_url(url)
+            canonical = canonicalize_url(url)
 
-            if is_facebook_url(url):
-                p = parse_facebook_url(url)
+            if is_facebook_url(canonical):
+                p = parse_facebook_url(canonical)
 
                 if p is not None:
                     url = p.url
 
-            elif is_youtube_url(url):
-                url = normalize_youtube_url(url)
+            elif is_youtube_url(canonical):
+                normalized = normalize_youtube_url(canonical)
+
+                if normalized != canonical:
+                    url = normalized
         except ValueError:
             return original_url_arg
 
